@@ -2,6 +2,7 @@ import Resolvo.Drv.Parse
 import Resolvo.Snapshot
 import Resolvo.Enc.Reference
 import Resolvo.Oracles
+import Resolvo.SubUniverse
 namespace Resolvo.Drv
 open Resolvo Resolvo.Snap
 
@@ -96,6 +97,21 @@ def runSnapshot (lines : List String) : List String :=
             [s!"oracle-fail C16 preference-lost: the live provider's first choices [{nl pref}] are mutually compatible, but solving through the snapshot ({tag}) gives [{nl sol}]"]
         else [])) ++ ["info preferred-consistent 1"]
     | none => []
-  o1 ++ o2 ++ o3 ++ o4 ++ o5 ++ o6 ++ o7 ++ [s!"info snapshot solvables {sn.solvables.length} vs {sn.versionSets.length} added {gotIds.length} solvable {solvable}"]
+  -- 5. the closure certificate behind `C16.snapshot_solvable_agree` / `snapshot_valid_agree`: on the captured solvables and
+  --    version sets (plus the added ones) the universe the snapshot denotes and the live universe give the same answers,
+  --    and that part of the universe is closed and contains what the problem mentions
+  let US := toUniverse sn addedVs
+  let capS := sn.solvables.map (·.1)
+  let capV := sn.versionSets.map (·.1) ++ addedVs.map (·.1)
+  let o8 := if subAgreeB U' US capS capV P' then ["info closure-certificate 1"] else
+    ["oracle-fail C16 closure-certificate: the captured part of the universe is not closed, or the snapshot's answers differ from the live provider's on it"]
+  let o9 := (["viasnap", "viaserde"].flatMap (fun tag =>
+    let r := res tag
+    if r.startsWith "ok" then
+      let sol := ((words r).drop 1).map nat!
+      if sol.all (fun s => capS.contains s) then [] else
+        [s!"oracle-fail C16 outside-capture: the solution [{nl sol}] found through the snapshot ({tag}) contains a solvable that was not captured"]
+    else []))
+  o1 ++ o2 ++ o3 ++ o4 ++ o5 ++ o6 ++ o7 ++ o8 ++ o9 ++ [s!"info snapshot solvables {sn.solvables.length} vs {sn.versionSets.length} added {gotIds.length} solvable {solvable}"]
 
 end Resolvo.Drv
